@@ -31,6 +31,10 @@ var floatTypes = []string{"float32", "float64"}
 
 func namedOf(t string) string { return "verifN" + strings.ToUpper(t[:1]) + t[1:] }
 
+func namedSigned() []string   { return []string{namedOf("int8"), namedOf("int16"), namedOf("int64")} }
+func namedUnsigned() []string { return []string{namedOf("uint8"), namedOf("uint32"), namedOf("uint64")} }
+func namedFloats() []string   { return []string{namedOf("float32"), namedOf("float64")} }
+
 // witnessSource generates an in-memory file of package signal (never written
 // to disk) whose only purpose is to make go/ssa instantiate the generic
 // functions at every element type (and at named types over them).
@@ -63,6 +67,16 @@ func witnessSource(pkgName string, have map[string]bool) string {
 	pairs("SignedAsUnsigned", signedTypes, unsignedTypes)
 	pairs("UnsignedAsSigned", unsignedTypes, signedTypes)
 	pairs("UnsignedAsUnsigned", unsignedTypes, unsignedTypes)
+	// named element types: a representative grid for the numeric rules
+	ns, nu, nf := namedSigned(), namedUnsigned(), namedFloats()
+	pairs("SignedAsSigned", ns, ns)
+	pairs("SignedAsUnsigned", ns, nu)
+	pairs("UnsignedAsSigned", nu, ns)
+	pairs("UnsignedAsUnsigned", nu, nu)
+	pairs("FloatAsSigned", nf, ns[:2])
+	pairs("FloatAsUnsigned", nf, nu[:2])
+	pairs("SignedAsFloat", ns[:2], nf)
+	pairs("UnsignedAsFloat", nu[:2], nf)
 	for _, t := range coreTypes {
 		emit("Alloc", t)
 		emit("Alloc", namedOf(t))
